@@ -67,7 +67,8 @@ def run(ctx):
     ci_cfgs = [(n, 60) for n in (range(1, 10) if ctx.tier == "quick" else range(1, 12))]
     jobs = [("mc.grids:wh_grid", list(range(len(grids.ALL_INTERVAL_SETS)))),
             ("mc.grids:sb_grid", grids.sb_configs(ctx.tier)),
-            ("mc.grids:ci_grid", ci_cfgs)]
+            ("mc.grids:ci_grid", ci_cfgs),
+            ("mc.grids:far_grid", [60, 15])]
     modes = ("rebuilt", "blocked")
     # sanity: the two pools really run different implementations
     flags = {}
